@@ -50,6 +50,9 @@ def main(argv):
         if prop == "C18":
             import racechk
             return racechk.replay(prop, rp) if rp else racechk.check(prop, tier)
+        if prop == "M01":
+            import memberchk
+            return memberchk.replay(prop, rp) if rp else memberchk.check(prop, tier)
         if prop == "C08":
             import locks
             return locks.replay(prop, rp) if rp else locks.check(prop, tier)
